@@ -21,7 +21,7 @@ import sys
 assert sys.version_info >= (3, 0)  # Bomb out if not running Python3
 
 
-import math, os, time, uuid, opentracing, urllib.parse
+import math, os, re, time, uuid, opentracing, urllib.parse
 from datetime import datetime, timezone
 from aioprometheus import Counter, Histogram
 
@@ -1676,6 +1676,18 @@ class TaskDispatcher(object):
 
             #child_execution_name = parameters.get("Name", str(uuid.uuid4())) # Deprecated
             child_execution_name = parameters.get("Name", event_id)
+            # The Name becomes the last part of the child's execution ARN, so
+            # hold it to the rule that the StartExecution API applies to names.
+            if not (isinstance(child_execution_name, str)
+                    and 0 < len(child_execution_name) < 81
+                    and not re.search(
+                        r"[ <>{}[\]?*\"#%\\^|~`$&,;:/\x00-\x1f\x7f-\x9f]",
+                        child_execution_name)):
+                message = "TaskDispatcher asl_service_states_startExecution: " \
+                          "Invalid Name: '{}'".format(child_execution_name)
+                error = {"errorType": "InvalidName", "errorMessage": message}
+                send_error_callback(context.get("Tracer", {}), error)
+                return
             child_execution_arn = create_arn(
                 service="states",
                 region=region,
